@@ -505,7 +505,11 @@ impl Database {
                         }
                     };
                     // The other group was moved after the current group, so we have to relocate it.
-                    if existing_group_location_changed < other_group_location_changed {
+                    // A group can not be moved below itself: when both sides moved two groups into each
+                    // other, applying the second move would detach the whole subtree.
+                    if existing_group_location_changed < other_group_location_changed
+                        && !current_group_path.contains(&other_group_uuid)
+                    {
                         self.relocate_node(
                             &other_group.uuid,
                             &destination_group_location,
